@@ -339,6 +339,8 @@ func sequentialResults(al []call, s scenario) map[string]bool {
 
 func Run(c *engine.Ctx) {
 	rw.SilenceStdout()
+	// what the library's init functions left in shimmed package-level objects is the state every reset returns to
+	vsync.Baseline()
 	if os.Getenv("MCVERIF_SEAM") != "sched" {
 		c.Note("sync seam unavailable on this tree: schedules are explored at thread granularity only (whole calls), ThreadSanitizer still decides races (seam_sync:false)")
 		c.Selftest("seam_sync", "false")
